@@ -494,9 +494,13 @@ func runC01(c *explore.Ctx) {
 	c.Extra["candidate_subscriptions"] = len(cands)
 	c.Extra["publishes_per_table"] = len(pubs)
 	if rc := replayCase(c); rc != nil {
+		if concReplay(c, rc, "C01") {
+			return
+		}
 		c.Fatal("C01 replay: re-run the table from the case by hand (./run.sh C01 quick prints it)")
 		return
 	}
+	concPubSubPhase(c, "C01")
 	modes := []string{"overlap", "onlyonce"}
 	c.Units("tables", len(modes)*len(cands), func(u int) {
 		mode := modes[u%2]
